@@ -454,6 +454,12 @@ func (x *Exec) evalLocs(env *Env, c *Contract, es []ast.Expr) (out []locRef) {
 
 // applyContract replaces a call by the callee's contract.
 func (x *Exec) applyContract(fr *Frame, st *State, c *Contract, sig *types.Signature, all []Value, site ssa.Instruction) []Value {
+	switch {
+	case c.Iface:
+		x.note("assumed contract of an interface method (foreign implementations are not verified)", calleeShort(c.Key))
+	case c.Assumed != "":
+		x.note("assumed contract ("+c.Assumed+")", calleeShort(c.Key))
+	}
 	env := x.contractEnv(st, c, sig, all)
 	ord := 0
 	if site != nil {
